@@ -9,10 +9,25 @@ const parsec_termdet_base_component_t parsec_termdet_local_component;
 void parsec_pins_instrument(struct parsec_execution_stream_s *es, PARSEC_PINS_FLAG method_flag, parsec_task_t *task){ (void)es; (void)method_flag; (void)task; }
 void parsec_pins_taskpool_init(parsec_taskpool_t *tp){ (void)tp; }
 void parsec_pins_taskpool_fini(parsec_taskpool_t *tp){ (void)tp; }
+void parsec_pins_thread_fini(struct parsec_execution_stream_s *es){ (void)es; }
+/* data copies: tasks of these scenarios have no flows */
+int parsec_data_release_self_contained_data(parsec_data_t *data){ (void)data; VASSUME(0); return 0; }
+int parsec_mca_device_is_gpu(uint32_t devindex){ (void)devindex; return 0; }
 void parsec_output_verbose(int verbose_level, int output_id, const char *format, ...){ (void)verbose_level; (void)output_id; (void)format; }
 /* a scheduler is always selected before the code under test runs: the MCA repository must not be reached */
 mca_base_component_t **mca_components_open_bytype(char *type){ (void)type; VASSUME(0); return NULL; }
 void mca_components_query(mca_base_component_t **o, mca_base_module_t **m, mca_base_component_t **c){ (void)o; (void)m; (void)c; VASSUME(0); }
 void mca_component_close(mca_base_component_t *c){ (void)c; }
 void mca_components_close(mca_base_component_t **c){ (void)c; }
+/* parsec_fatal(): formatting is empty; reaching the exit is outside the caller contract of the harnesses that
+ * include this file (they only feed DONE/AGAIN/ASYNC return codes) */
+int parsec_debug_history_on_fatal = 0, parsec_debug_coredump_on_fatal = 0;
+char parsec_hostname_array[2]; const char *parsec_hostname = parsec_hostname_array;
+void parsec_output(int output_id, const char *format, ...){ (void)output_id; (void)format; }
+#ifndef parsec_debug_history_dump
+void parsec_debug_history_dump(void){ }
+#endif
+static int vp_fatal_reached;
+static void vp_exit_stub(int status){ (void)status; vp_fatal_reached = 1; VASSUME(0); }
+void (*parsec_weaksym_exit)(int status) = vp_exit_stub;
 #endif
